@@ -24,7 +24,9 @@ map() { # subject -> checks
     *"insert_value keeps"*) echo C02 ;;
     *"CloseUpvalue pops"*|*"open upvalues nobody uses"*) echo C05 ;;
     *"failed run_function"*|*"typed native wrappers consume"*) echo C18 ;;
-    *"upvalue list holds"*|*"climbs above the root"*) echo C04 ;;
+    *"upvalue list holds"*|*"climbs above the root"*|*"moves its entries without comparing"*|*"remember the best row"*|*"tolerates the language"*) echo C04 ;;
+    *"marks everything a table stores"*) echo C02 ;;
+    *"are traced to the card itself"*) echo C15 ;;
     *) echo "" ;;
   esac
 }
